@@ -52,6 +52,20 @@ corrupt   one member at a time, every position that carries a data stream, archi
           "flip"   7z:  one byte of the member's packed data is inverted (copy coder: a byte in the middle of the member, the stored
                         CRC no longer matches; LZMA / LZMA2: the first byte of the folder's pack stream, which no decoder accepts)
           truncation keeps the first half of the stream
+          "zbtype" "zstored" "zdist"   zip, deflated members: the deflate stream itself is invalid while every header field and
+                   the CRC stay those of the honest archive (the first bytes of the member's compressed data are overwritten):
+                   reserved block type 3 / a stored block whose LEN and NLEN disagree / a fixed-Huffman match that points before
+                   the start of the output.  The inflater (not the CRC check, not the end of the data) rejects the member.
+far       dictionary family (base cases only, 7z LZMA / LZMA2): the coder properties declare a SMALL dictionary
+          (lay["dict"] in 4096 6144 8192 12288; thorough + 16384 24576 65536 and encoded headers) and the members are large
+          against it:   far  <tok>.txt = a block of 3/4 dictionary size of pseudo-random words, written twice (matches at a
+                                         distance in (dict/2, dict] inside one member)
+                        blk  <tok>.txt = the same block once (two of them in one solid folder: the match crosses members)
+                        txt  the small text document
+          every sequence of length 1..2 (thorough 1..3) over far blk txt x lzma lzma2 x solid per_file two_folders x dict.
+          A decoder set up with less than the declared dictionary cannot resolve the far matches.  run() reports for which
+          (coder, dict) the stream of a "far" member really needs more than half the declared dictionary (coverage
+          bounds.far_family.needs_full_dict).
 
 Oracle
   base cases (no corruption): [(filename, file_path, to_json minus file metadata)] of read_archive(BytesIO(archive), path=A) equals,
@@ -86,10 +100,20 @@ LEVEL = "exploration"
 
 KINDS = ["txt", "html", "docx", "xlsx", "pdf", "eml", "xls", "ppt", "empty", "dir", "hidden", "bin"]
 DOC_KINDS = ("txt", "html", "docx", "xlsx", "pdf", "eml", "xls", "ppt")   # xls/ppt: legacy readers have their own error class
-RESULT_KINDS = DOC_KINDS + ("empty", "between")        # supported visible members
-STREAM_KINDS = DOC_KINDS + ("hidden", "bin")           # members that own a non-empty data stream
+FAR_KINDS = ("far", "blk")                             # dictionary family: text documents that are large against the dictionary
+RESULT_KINDS = DOC_KINDS + ("empty", "between") + FAR_KINDS        # supported visible members
+STREAM_KINDS = DOC_KINDS + ("hidden", "bin") + FAR_KINDS           # members that own a non-empty data stream
 EXT = {"txt": "txt", "html": "html", "docx": "docx", "xlsx": "xlsx", "pdf": "pdf", "eml": "eml", "xls": "xls", "ppt": "ppt", "empty": "txt", "hidden": "txt",
-       "bin": "bin"}
+       "bin": "bin", "far": "txt", "blk": "txt"}
+# deflate streams that the inflater itself rejects (written over the first bytes of a member's compressed data)
+ZSTREAM = {"zbtype": b"\x07",                       # BFINAL=1 BTYPE=3 (reserved)
+           "zstored": b"\x01\x05\x00\x00\x00",       # stored block, LEN=5 NLEN=0 (not the complement)
+           "zdist": b"\x03\x02\x00"}                 # fixed Huffman block: length 3, distance 1 with no output yet
+# dictionary family: declared 7z LZMA / LZMA2 dictionary sizes (the writer's default is 65536), (length, kinds) per tier
+FAR_DICTS = {"quick": [4096, 6144, 8192, 12288], "thorough": [4096, 6144, 8192, 12288, 16384, 24576, 65536]}
+FAR_SEQ_KINDS = ["far", "blk", "txt"]
+FAR_MAXLEN = {"quick": 2, "thorough": 3}
+FAR_CODERS = ["lzma", "lzma2"]
 ZIP_COMP = ["stored", "deflated", "mixed"]
 TAR_COMP = ["plain", "gz", "bz2", "xz"]
 SZ_CODERS = ["copy", "lzma", "lzma2"]
@@ -170,6 +194,34 @@ def member_bytes(seed, pos, kind):
     return b
 
 
+_FAR = {}
+
+
+def far_block(seed, n):
+    """n bytes of pseudo-random lower-case words (poorly compressible within themselves), deterministic in (seed, n)"""
+    key = (seed, n)
+    if key not in _FAR:
+        out, k = [], 0
+        size = 0
+        while size < n:
+            h = hashlib.sha256(f"C10far:{seed}:{k}".encode()).digest()
+            k += 1
+            w = "".join(chr(97 + b % 26) for b in h)
+            for a, b in ((0, 5), (5, 12), (12, 16), (16, 25), (25, 32)):
+                out.append(w[a:b])
+                size += b - a + 1
+            if k % 3 == 0:
+                out.append("\n")
+        text = " ".join(out).replace(" \n ", "\n")
+        _FAR[key] = text[:n - 1].encode() + b"\n"
+    return _FAR[key]
+
+
+def far_bytes(seed, kind, dict_size):
+    blk = far_block(seed, dict_size * 3 // 4)
+    return blk + blk if kind == "far" else blk
+
+
 def damage(data: bytes) -> bytes:
     return data[:len(data) // 2]
 
@@ -218,7 +270,7 @@ def build_members(case, seed):
             out.append({"name": cur.rstrip("/"), "kind": "dir", "data": None, "pos": i})
             continue
         base = ("." if kind == "hidden" else "") + stem + "." + ext(EXT[kind])
-        data = member_bytes(seed, i, kind)
+        data = far_bytes(seed, kind, case["lay"].get("dict", 1 << 16)) if kind in FAR_KINDS else member_bytes(seed, i, kind)
         if cor and cor[0] == i and cor[1] == "doc":
             data = damage(data)
         m = {"name": cur + base, "kind": kind, "data": data, "pos": i}
@@ -273,6 +325,23 @@ def build_zip(case, ms):
     p, how = cor
     idx = [i for i, m in enumerate(ms) if m["pos"] == p][0]
     tgt = dict(zm[idx])
+    if how in ZSTREAM:
+        if tgt["method"] != zipfile.ZIP_DEFLATED:
+            raise ValueError(how + " needs a deflated member")
+        with warnings.catch_warnings():
+            warnings.simplefilter("ignore")
+            raw = bytearray(zipforge.zip_honest(zm))
+        with zipfile.ZipFile(io.BytesIO(bytes(raw))) as z:
+            zi = z.infolist()[idx]
+        off = zi.header_offset
+        if raw[off:off + 4] != b"PK\x03\x04":
+            raise ValueError("no local header where the directory says")
+        start_ = off + 30 + int.from_bytes(raw[off + 26:off + 28], "little") + int.from_bytes(raw[off + 28:off + 30], "little")
+        pat = ZSTREAM[how]
+        if zi.compress_size < len(pat) + 1:
+            raise ValueError("deflate stream too short to damage")
+        raw[start_:start_ + len(pat)] = pat
+        return bytes(raw), {idx}
     if how == "crc":
         tgt["crc"] = (zlib.crc32(tgt["data"]) & 0xFFFFFFFF) ^ 0x5A5A5A5A
     elif how == "trunc":
@@ -319,6 +388,8 @@ def build_7z(case, ms):
         else:
             sm.append({"name": m["name"], "data": m["data"]})
     opts = {"coder": lay["coder"], "layout": lay["layout"], "header": lay["header"]}
+    if lay.get("dict"):
+        opts["dict_size"] = int(lay["dict"])
     if lay.get("attrs") == "unix":
         # what p7zip writes: FILE_ATTRIBUTE_UNIX_EXTENSION | st_mode << 16 | DOS bits, plus a modification time
         for m, s in zip(ms, sm):
@@ -722,7 +793,7 @@ def sequences(tier):
 def corruptions(lay, seq):
     """corruption kinds applicable at each position (the base archive has >= 1 other member with a result)"""
     out = []
-    if lay.get("fmt") or lay.get("attrs") or lay.get("names"):
+    if lay.get("fmt") or lay.get("attrs") or lay.get("names") or lay.get("dict"):
         return out
     for p, kind in enumerate(seq):
         if kind not in STREAM_KINDS:
@@ -736,6 +807,7 @@ def corruptions(lay, seq):
             hows.append("crc")
             if lay["comp"] == "deflated" or (lay["comp"] == "mixed" and p % 2 == 1):
                 hows.append("trunc")
+                hows += sorted(ZSTREAM)
         elif lay["arch"] == "7z":
             # stream corruption is explored on the plain-header, no-empties-between variants (the header coding and the
             # interleaved empty files are already crossed with every layout in the base cases)
@@ -783,6 +855,22 @@ def long_sequences(tier):
             yield list(seq)
 
 
+def far_layouts(tier):
+    """the layouts of the dictionary family"""
+    t = "quick" if tier == "quick" else "thorough"
+    out = []
+    for coder, layout, d in itertools.product(FAR_CODERS, SZ_LAYOUTS, FAR_DICTS[t]):
+        for header in (["plain"] if t == "quick" else SZ_HEADERS):
+            out.append({"arch": "7z", "coder": coder, "layout": layout, "header": header, "between": False, "dict": d})
+    return out
+
+
+def far_sequences(tier):
+    for n in range(1, FAR_MAXLEN["quick" if tier == "quick" else "thorough"] + 1):
+        for seq in itertools.product(FAR_SEQ_KINDS, repeat=n):
+            yield list(seq)
+
+
 def is_long(case, tier):
     return len(case["members"]) > maxlen(tier)
 
@@ -794,6 +882,31 @@ def bases(tier):
     for lay in long_layouts(tier):
         for seq in long_sequences(tier):
             yield {"lay": lay, "members": seq, "corrupt": None}
+    for lay in far_layouts(tier):
+        for seq in far_sequences(tier):
+            yield {"lay": lay, "members": seq, "corrupt": None}
+
+
+def far_probe(seed, dicts):
+    """for which (coder, declared dictionary) the packed stream of a "far" member cannot be decoded with half the dictionary
+    (i.e. the family really contains matches beyond dict/2); reported in the coverage, not a verdict"""
+    import lzma
+    out = {}
+    for coder in FAR_CODERS:
+        for d in dicts:
+            data = far_bytes(seed, "far", d)
+            packed, _, props = SZ.encode(data, coder, d)
+            if coder == "lzma2":
+                real = SZ.lzma2_dict_prop(max(4096, d))[1]
+                flt = {"id": lzma.FILTER_LZMA2, "dict_size": max(4096, real // 2)}
+            else:
+                flt = {"id": lzma.FILTER_LZMA1, "dict_size": max(4096, d // 2), "lc": 3, "lp": 0, "pb": 2}
+            try:
+                ok = lzma.LZMADecompressor(format=lzma.FORMAT_RAW, filters=[flt]).decompress(packed, len(data)) == data
+            except lzma.LZMAError:
+                ok = False
+            out[f"{coder}:{d}"] = not ok
+    return out
 
 
 def _part(arg):
@@ -823,7 +936,8 @@ def _part(arg):
                 herr.append(f"case {json.dumps(case)}: {type(e).__name__}: {e} {traceback.format_exc()[-500:]}")
                 continue
             ev += 1
-            key = arch + (":corrupt" if case["corrupt"] else ":base-long" if is_long(case, tier) else ":base")
+            key = arch + (":corrupt" if case["corrupt"] else ":base-far" if case["lay"].get("dict") else
+                          ":base-long" if is_long(case, tier) else ":base")
             per[key] = per.get(key, 0) + 1
             outcomes[oc] = outcomes.get(oc, 0) + 1
             if oc not in examples or json.dumps(case, sort_keys=True) < json.dumps(examples[oc], sort_keys=True):
@@ -869,13 +983,19 @@ def run(ctx):
         except Exception as e:  # noqa
             herr.append(f"sample {json.dumps(c)}: {type(e).__name__}: {e}")
     L = maxlen(ctx.tier)
+    tq = "quick" if ctx.quick else "thorough"
     cov = {"evaluations": ev, "distinct_nontrivial": len(outcomes), "exhaustive": True, "samples": samples,
            "rule": f"every member sequence of length 0..{L} over {KINDS} x every layout (zip 3, tar 4 (+4 with GNU headers), 7z 3 coders x 3 "
                    "folder layouts x 2 header codings x with/without empty files between = 36 (+9 with attribute/time records)) written by "
                    "the reference writers, read back by an independent reader, "
                    "then read by read_archive and compared with the direct extraction of every member; plus, for every position that owns a "
                    "data stream (and >= 1 other member with a result), one corruption at a time: damaged document (all containers), bad CRC / "
-                   "truncated deflate stream (zip), flipped byte / truncated pack stream (7z, plain header without interleaved empties); "
+                   "truncated deflate stream / deflate stream that the inflater rejects: reserved block type, stored-block length "
+                   "mismatch, match before the start of the output (zip), flipped byte / truncated pack stream (7z, plain header "
+                   "without interleaved empties); "
+                   f"plus the dictionary family (base cases only): every sequence of length 1..{FAR_MAXLEN[tq]} over {FAR_SEQ_KINDS} (far = a "
+                   "text whose second half repeats the first at 3/4 of the declared dictionary size, blk = that block once) x 7z "
+                   f"{FAR_CODERS} x {SZ_LAYOUTS} x declared dictionary {FAR_DICTS[tq]} ({len(far_layouts(ctx.tier))} layouts); "
                    f"plus the member-name families {name_families(ctx.tier)} (names relative to ./, dot directories, skip-rule look-alikes "
                    "inside names, upper-case extensions, blanks, one name for several members = versions of a file, names over 100 bytes, "
                    "ustar prefix split, names that start like a magic number), each x every member sequence x the layouts of "
@@ -890,6 +1010,10 @@ def run(ctx):
                                          "length_x_kinds": LONG_SEQS["quick" if ctx.quick else "thorough"],
                                          "sequences": sum(len(k) ** n for n, k in LONG_SEQS["quick" if ctx.quick else "thorough"])},
                       "name_families": {f: len(name_layouts(f, ctx.tier)) for f in name_families(ctx.tier)},
+                      "zip_stream_damage": sorted(ZSTREAM),
+                      "far_family": {"layouts": len(far_layouts(ctx.tier)), "dicts": FAR_DICTS[tq], "coders": FAR_CODERS,
+                                     "max_members": FAR_MAXLEN[tq], "kinds": FAR_SEQ_KINDS,
+                                     "needs_full_dict": far_probe(ctx.seed, FAR_DICTS[tq])},
                       "long_stem": LONG_STEM, "long_dir": LONG_DIR, "split_stem": SPLIT_STEM}}
     return {"coverage": cov, "failures": fails, "harness_errors": herr[:10],
             "assumptions": [
@@ -979,7 +1103,7 @@ def shrinks(case):
             c = {"lay": lay, "members": mem, "corrupt": cor}
             if _valid(c):
                 yield c
-    for k in ("fmt", "attrs", "names"):
+    for k in ("fmt", "attrs", "names", "dict"):
         if k in case["lay"]:
             lay = dict(case["lay"])
             del lay[k]
